@@ -566,8 +566,11 @@ class Simplifier:
                 if r is not None:
                     h, binds, bound = r
                     hb = _strip_doc(h.node.body)
+                    calls_nothing = hb and isinstance(hb[0], ast.Return) and hb[0].value is not None and \
+                        not any(isinstance(x, (ast.Call, ast.Await, ast.Yield, ast.YieldFrom, ast.NamedExpr)) for x in ast.walk(hb[0].value))
                     if len(hb) == 1 and isinstance(hb[0], ast.Return) and hb[0].value is not None and not stores(h.node) \
-                            and all(isinstance(a, (ast.Name, ast.Constant)) or me.stable_ref(a, local) for _nm, a in binds):
+                            and all(isinstance(a, (ast.Name, ast.Constant)) or me.stable_ref(a, local) or
+                                    (calls_nothing and isinstance(a, ast.Attribute) and me._pure(a, local)) for _nm, a in binds):
                         # a helper that is one expression: written in place, wherever the call stands (its parameters are plain
                         # references here, so nothing is evaluated twice or out of turn)
                         body = copy.deepcopy(hb[0].value)
@@ -615,9 +618,8 @@ class Simplifier:
             if isinstance(s, SCOPES):
                 out.append(s)
                 continue
-            if isinstance(s, (ast.Assign, ast.Return, ast.Expr)) and s.value is not None and \
-                    not (isinstance(s.value, ast.Call) and self._helper(s.value, local) is not None):
-                s.value = self.fold_expr(s.value, local)
+            if isinstance(s, (ast.Assign, ast.Return, ast.Expr)) and s.value is not None:
+                s.value = self.fold_expr(s.value, local)     # (a one-expression helper is written in place here, whole value or not)
             elif isinstance(s, ast.If):
                 s.test = self.fold_expr(s.test, local)
             hoisted = self.hoist(s, local)
